@@ -115,8 +115,9 @@ def float_const(c):
 
 
 class SymEx:
-    def __init__(self, facts, max_depth=8, max_paths=400, opaque=(), models=None, seq_sources=()):
+    def __init__(self, facts, max_depth=8, max_paths=400, opaque=(), models=None, seq_sources=(), sym_collections=False):
         self.f = facts
+        self.sym_collections = sym_collections   # iterating a symbolic Vec / slice gives the symbolic sequence of its elements
         self.seq_sources = tuple(seq_sources)   # callee-name suffixes whose (opaque) result is a symbolic sequence
         self.max_depth = max_depth
         self.max_paths = max_paths
@@ -973,6 +974,12 @@ class SymEx:
             b0 = st.frames[r[1]].get(r[2])
             st.frames[r[1]][r[2]] = self._set_path(b0, list(r[3]), ('seq', tuple(new))) if r[3] else ('seq', tuple(new))
             return [(st, UNIT)]
+        if items is None and self.sym_collections and last in ('iter', 'into_iter', 'iter_mut') and len(args) == 1 and \
+                isinstance(a0, tuple) and a0[0] in ('sym', 'app'):
+            aty = ((t or {}).get('args') or [{}])[0].get('ty', '').replace('&', '').replace('mut ', '').strip()
+            if aty.startswith(('std::vec::Vec<', '[')):
+                # a collection of unknown length held in a parameter / field: the sequence of its elements
+                return [(st, ('sseq', self.deep(st, a0), SYM('$x'), NUM(0)))]
         if items is None:
             # a symbolic Option turned into a sequence forks like a match
             v = args[0]
